@@ -207,7 +207,7 @@ Definition ops_on (q : nat) (ops : list bop) : list instr := map (fun o => mkI (
 Definition splice1 (env : benv) (i : instr) : res (list instr) :=
   match iop i with
   | Qpd2 _ _ _ => Crashed
-  | Qpd1 b h None _ => Refused
+  | Qpd1 b h None _ => Crashed
   | Qpd1 b h (Some m) _ =>
       match definition_1q env b h m with
       | None => Crashed
@@ -335,51 +335,97 @@ Proof. unfold basis_of, is_qpd. destruct (iop i); try discriminate; eauto. Qed.
 Lemma is_qpd2_is_qpd i : is_qpd2 i = true -> is_qpd i = true.
 Proof. unfold is_qpd2, is_qpd. destruct (iop i); try discriminate; reflexivity. Qed.
 
-Lemma validate_members_ok c b0 g :
-  validate_members c b0 g = Ok tt -> forall p, In p g -> placeholder_with c b0 p.
+(* a two-qubit placeholder is a decomposition of its own *)
+Definition lone_2q (c : circ) (g : list nat) : Prop :=
+  forall p, In p g -> qpd2_at c p -> length g = 1.
+
+(* what the (repaired) validation accepts *)
+Definition well_formed (c : circ) (ids : list (list nat)) : Prop :=
+  Forall (good_group c) ids /\
+  length (filter is_qpd c) = length (concat ids) /\
+  NoDup (concat ids) /\
+  (forall g, In g ids -> lone_2q c g).
+
+Lemma nodupb_NoDup l : nodupb l = true -> NoDup l.
+Proof.
+  induction l as [|a l IH]; simpl; intros H; constructor; apply andb_prop in H as [H1 H2]; [|auto].
+  intros Hin. apply negb_true_iff in H1.
+  assert (existsb (Nat.eqb a) l = true) by (apply existsb_exists; exists a; split; auto using Nat.eqb_refl).
+  congruence.
+Qed.
+
+Lemma NoDup_nodupb l : NoDup l -> nodupb l = true.
+Proof.
+  induction 1 as [|a l Hn Hd IH]; simpl; [reflexivity|]. rewrite IH, andb_true_r. apply negb_true_iff.
+  destruct (existsb (Nat.eqb a) l) eqn:E; [|reflexivity].
+  apply existsb_exists in E as (x & Hx & Ex). apply Nat.eqb_eq in Ex; subst x. contradiction.
+Qed.
+
+Lemma validate_members_ok c b0 pair g :
+  validate_members c b0 pair g = Ok tt ->
+  forall p, In p g -> placeholder_with c b0 p /\ (pair = true -> ~ qpd2_at c p).
 Proof.
   induction g as [|a g IH]; simpl; intros H p Hin; [contradiction|].
   destruct (nth_error c a) as [i|] eqn:E; [|discriminate].
   destruct (basis_of i) as [b|] eqn:Eb; [|discriminate].
   destruct (Nat.eqb_spec b0 b) as [->|]; [|discriminate].
-  destruct Hin as [<-|Hin]; [exists i; auto|now apply IH].
+  destruct (pair && is_qpd2 i) eqn:Ep; [discriminate|].
+  destruct Hin as [<-|Hin]; [|now apply IH]. split; [exists i; auto|].
+  intros -> (i' & Hi' & Hq). rewrite E in Hi'. inversion Hi'; subst i'. rewrite Hq in Ep. discriminate.
 Qed.
 
-Lemma validate_group_ok c g : validate_group c g = Ok tt -> good_group c g.
+Lemma validate_group_ok c g : validate_group c g = Ok tt -> good_group c g /\ lone_2q c g.
 Proof.
   unfold validate_group.
   destruct (Nat.eqb (length g) 1 || Nat.eqb (length g) 2) eqn:El; simpl; [|discriminate].
   destruct g as [|p0 r]; [discriminate|].
   destruct (nth_error c p0) as [i|] eqn:E; [|discriminate].
   destruct (basis_of i) as [b|] eqn:Eb; [|discriminate].
-  intros H. split.
-  - apply orb_true_iff in El as [El|El]; apply Nat.eqb_eq in El; auto.
-  - exists b. now apply validate_members_ok.
+  intros H. pose proof (validate_members_ok c b _ _ H) as Hm.
+  assert (Hl : length (p0 :: r) = 1 \/ length (p0 :: r) = 2)
+    by (apply orb_true_iff in El as [El|El]; apply Nat.eqb_eq in El; auto).
+  split; [split; [exact Hl|exists b; intros p Hp; apply (Hm p Hp)]|].
+  intros p Hp Hq. destruct Hl as [Hl|Hl]; [exact Hl|]. exfalso.
+  apply (proj2 (Hm p Hp)); [|exact Hq]. now apply Nat.eqb_eq.
 Qed.
 
-Lemma validate_groups_ok c ids : validate_groups c ids = Ok tt -> Forall (good_group c) ids.
+Lemma validate_groups_ok c ids :
+  validate_groups c ids = Ok tt -> Forall (good_group c) ids /\ (forall g, In g ids -> lone_2q c g).
 Proof.
-  induction ids as [|g ids IH]; simpl; intros H; [constructor|].
+  induction ids as [|g ids IH]; simpl; intros H; [split; [constructor|intros ? []]|].
   destruct (validate_group c g) as [[]| |] eqn:E; simpl in H; try discriminate.
-  constructor; auto using validate_group_ok.
+  destruct (validate_group_ok c g E) as [Hg Hl]. destruct (IH H) as [IH1 IH2].
+  split; [now constructor|]. intros g' [<-|Hin]; auto.
 Qed.
 
 Lemma list_sum_length_concat (ids : list (list nat)) : list_sum (map (@length nat) ids) = length (concat ids).
 Proof. induction ids as [|g ids IH]; simpl; [reflexivity|]. rewrite app_length; lia. Qed.
 
-Lemma validate_ok c ids :
-  validate c ids = Ok tt -> Forall (good_group c) ids /\ length (filter is_qpd c) = length (concat ids).
+Lemma validate_ok_full c ids : validate c ids = Ok tt -> well_formed c ids.
 Proof.
   unfold validate. destruct (validate_groups c ids) as [[]| |] eqn:E; simpl; try discriminate.
+  destruct (nodupb (concat ids)) eqn:En; simpl; [|discriminate].
   destruct (Nat.eqb_spec (length (filter is_qpd c)) (list_sum (map (@length nat) ids))) as [H|]; [|discriminate].
-  intros _. split; [now apply validate_groups_ok|now rewrite <- list_sum_length_concat].
+  intros _. destruct (validate_groups_ok c ids E) as [Hg Hl].
+  repeat split; [exact Hg|now rewrite <- list_sum_length_concat|now apply nodupb_NoDup|exact Hl].
 Qed.
 
-Lemma validate_members_nocrash c b0 g : (forall p, In p g -> p < length c) -> validate_members c b0 g <> Crashed.
+Lemma validate_ok c ids :
+  validate c ids = Ok tt -> Forall (good_group c) ids /\ length (filter is_qpd c) = length (concat ids).
+Proof. intros H. destruct (validate_ok_full c ids H) as (H1 & H2 & _). auto. Qed.
+
+Lemma validate_ok_parts c ids :
+  validate c ids = Ok tt ->
+  NoDup (concat ids) /\ (forall g p, In g ids -> In p g -> qpd2_at c p -> length g = 1).
+Proof. intros H. destruct (validate_ok_full c ids H) as (_ & _ & H3 & H4). split; [exact H3|]. intros g p Hg. now apply H4. Qed.
+
+Lemma validate_members_nocrash c b0 pair g :
+  (forall p, In p g -> p < length c) -> validate_members c b0 pair g <> Crashed.
 Proof.
   induction g as [|a g IH]; simpl; intros H; [discriminate|].
   destruct (nth_error c a) as [i|] eqn:E.
-  - destruct (basis_of i); [|discriminate]. destruct (Nat.eqb b0 n); [|discriminate]. apply IH; auto.
+  - destruct (basis_of i); [|discriminate]. destruct (Nat.eqb b0 n); [|discriminate].
+    destruct (pair && is_qpd2 i); [discriminate|]. apply IH; auto.
   - apply nth_error_None in E. specialize (H a (or_introl eq_refl)). lia.
 Qed.
 
@@ -401,42 +447,48 @@ Proof.
     destruct (validate_group c g) as [[]| |]; simpl; try discriminate; [|congruence].
     apply IH. intros g' p Hg' Hp. apply (H g' p); auto. now right. }
   destruct (validate_groups c ids) as [[]| |]; simpl; try discriminate; [|congruence].
-  destruct (Nat.eqb _ _); discriminate.
+  destruct (negb _); [discriminate|]. destruct (Nat.eqb _ _); discriminate.
 Qed.
 
 (* every refusal class of the validation at once *)
 Lemma validate_refuses c ids :
-  ids_in_range c ids ->
-  ~ (Forall (good_group c) ids /\ length (filter is_qpd c) = length (concat ids)) ->
-  validate c ids = Refused.
+  ids_in_range c ids -> ~ well_formed c ids -> validate c ids = Refused.
 Proof.
   intros Hr Hn. pose proof (validate_nocrash c ids Hr) as Hc.
   destruct (validate c ids) as [[]| |] eqn:E; [|reflexivity|congruence].
-  exfalso. apply Hn. now apply validate_ok.
+  exfalso. apply Hn. now apply validate_ok_full.
 Qed.
 
 (* completeness of the validation: semantic well-formedness is accepted *)
-Lemma validate_members_complete c b g :
-  (forall p, In p g -> placeholder_with c b p) -> validate_members c b g = Ok tt.
+Lemma validate_members_complete c b pair g :
+  (forall p, In p g -> placeholder_with c b p) -> (pair = true -> forall p, In p g -> ~ qpd2_at c p) ->
+  validate_members c b pair g = Ok tt.
 Proof.
-  induction g as [|a g IH]; simpl; intros H; [reflexivity|].
-  destruct (H a (or_introl eq_refl)) as (i & -> & ->). rewrite Nat.eqb_refl. apply IH; auto.
+  induction g as [|a g IH]; simpl; intros H Hp; [reflexivity|].
+  destruct (H a (or_introl eq_refl)) as (i & Hi & Hb). rewrite Hi, Hb, Nat.eqb_refl.
+  assert (pair && is_qpd2 i = false) as ->.
+  { destruct pair; [|reflexivity]. simpl. destruct (is_qpd2 i) eqn:Eq; [|reflexivity].
+    exfalso. apply (Hp eq_refl a (or_introl eq_refl)). exists i; auto. }
+  apply IH; auto.
 Qed.
 
-Lemma validate_complete c ids :
-  Forall (good_group c) ids -> length (filter is_qpd c) = length (concat ids) -> validate c ids = Ok tt.
+Lemma validate_complete c ids : well_formed c ids -> validate c ids = Ok tt.
 Proof.
-  intros Hg Hc. unfold validate.
+  intros (Hg & Hc & Hd & Hl). unfold validate.
   assert (H : validate_groups c ids = Ok tt).
-  { clear Hc. induction Hg as [|g ids (Hl & b & Hb) _ IH]; simpl; [reflexivity|].
+  { clear Hc Hd. induction Hg as [|g ids (Hlen & b & Hb) _ IH]; simpl; [reflexivity|].
     assert (Hv : validate_group c g = Ok tt).
     { unfold validate_group.
       assert (El : Nat.eqb (length g) 1 || Nat.eqb (length g) 2 = true)
-        by (destruct Hl as [->| ->]; reflexivity).
-      rewrite El; simpl. destruct g as [|p0 r]; [simpl in Hl; lia|].
-      destruct (Hb p0 (or_introl eq_refl)) as (i & -> & ->). now apply validate_members_complete. }
-    rewrite Hv; simpl. apply IH. }
-  rewrite H; simpl. rewrite list_sum_length_concat, Hc. now rewrite Nat.eqb_refl.
+        by (destruct Hlen as [->| ->]; reflexivity).
+      rewrite El; simpl. destruct g as [|p0 r]; [simpl in Hlen; lia|].
+      destruct (Hb p0 (or_introl eq_refl)) as (i & -> & ->).
+      apply validate_members_complete; [exact Hb|].
+      intros E2 p Hp Hq. apply Nat.eqb_eq in E2.
+      pose proof (Hl (p0 :: r) (or_introl eq_refl) p Hp Hq) as H1. lia. }
+    rewrite Hv; simpl. apply IH. intros g' Hg'. apply Hl. now right. }
+  rewrite H; simpl. rewrite (NoDup_nodupb _ Hd). simpl.
+  rewrite list_sum_length_concat, Hc. now rewrite Nat.eqb_refl.
 Qed.
 
 (* ====================================================================== *)
@@ -640,8 +692,6 @@ Definition wfb (env : benv) (i : instr) : bool :=
   | Qpd2 b (Some m) _ | Qpd1 b _ (Some m) _ => Nat.ltb m (length (nth b env []))
   | _ => true
   end.
-Definition has_bid (i : instr) : bool :=
-  match iop i with Qpd2 _ None _ | Qpd1 _ _ None _ => false | _ => true end.
 Definition goodb (env : benv) (i : instr) : bool := wfb env i && has_bid i.
 
 Lemma splice_all_app env l1 l2 :
@@ -664,7 +714,7 @@ Qed.
 
 Lemma splice_all_split2_one env x :
   wfb env x = true ->
-  splice_all env (split2 x) = if has_bid x then Ok (splice env x) else Refused.
+  splice_all env (split2 x) = if has_bid x then Ok (splice env x) else Crashed.
 Proof.
   unfold wfb, has_bid, split2, halves, splice. destruct x as [o qs cs]; simpl.
   destruct o as [g|lb| | | | |b bid lb|b h bid lb| ]; intros Hw; try reflexivity.
@@ -678,7 +728,7 @@ Qed.
 
 Lemma splice_all_split2 env c :
   forallb (wfb env) c = true ->
-  splice_all env (flat_map split2 c) = if forallb has_bid c then Ok (flat_map (splice env) c) else Refused.
+  splice_all env (flat_map split2 c) = if forallb has_bid c then Ok (flat_map (splice env) c) else Crashed.
 Proof.
   induction c as [|x c IH]; simpl; intros H; [reflexivity|].
   apply andb_prop in H as [Hx Hc]. rewrite splice_all_app, (splice_all_split2_one env x Hx), (IH Hc).
@@ -768,11 +818,16 @@ Qed.
 (* J. the main theorems                                                    *)
 (* ====================================================================== *)
 
-(* a grouping of all placeholders into decompositions *)
-Definition valid_grouping (c : circ) (ids : list (list nat)) : Prop :=
-  validate c ids = Ok tt /\                                  (* accepted by the validation: lengths, placeholders, one basis per group, count *)
-  NoDup (concat ids) /\                                      (* no index is mentioned twice *)
-  (forall g p, In g ids -> In p g -> qpd2_at c p -> length g = 1).  (* a two-qubit placeholder is a decomposition of its own *)
+(* a grouping of all placeholders into decompositions = a request the (repaired) validation accepts:
+   groups of one or two indices, all placeholders, one basis per group, a two-qubit placeholder alone in its
+   group, no index mentioned twice, every placeholder mentioned (c14_validate_characterised) *)
+Definition valid_grouping (c : circ) (ids : list (list nat)) : Prop := validate c ids = Ok tt.
+
+Lemma vg_parts c ids :
+  valid_grouping c ids ->
+  validate c ids = Ok tt /\ NoDup (concat ids) /\
+  (forall g p, In g ids -> In p g -> qpd2_at c p -> length g = 1).
+Proof. intros H. split; [exact H|]. now apply validate_ok_parts. Qed.
 
 (* ... together with an in-range map choice per decomposition *)
 Definition valid (env : benv) (c : circ) (ids : list (list nat)) (ms : list Z) : Prop :=
@@ -798,9 +853,9 @@ Lemma expand_phases env c c1 nc ids :
   forallb (wfb env) c1 = true ->
   res_bind (expand_2q c1 ids) (fun c2 =>
   res_bind (expand_1q env c2) (fun c3 => Ok (decompose_measurements nc c3)))
-  = if forallb has_bid c1 then Ok (spec env nc c1) else Refused.
+  = if forallb has_bid c1 then Ok (spec env nc c1) else Crashed.
 Proof.
-  intros (Hv & Hd & H2) Hk Hw. apply validate_ok in Hv as (Hg & Hc).
+  intros Hvg Hk Hw. destruct (vg_parts c ids Hvg) as (Hv & Hd & H2). apply validate_ok in Hv as (Hg & Hc).
   assert (Hids : ids_2q c1 ids = ids_2q c ids).
   { apply ids_2q_ext. intros n. now rewrite <- !nth_error_map', Hk. }
   assert (Hpos : positions is_qpd2 c1 = positions is_qpd2 c).
@@ -822,11 +877,14 @@ Proof.
   destruct (Hg g Hin) as (_ & b & Hb). exists b. now apply Hb.
 Qed.
 
+Lemma all_some_map_Some {A} (l : list A) : all_some (map Some l) = Some l.
+Proof. induction l as [|x l IH]; simpl; [reflexivity|]. now rewrite IH. Qed.
+
 Lemma set_basis_ids_valid env c ids ms :
-  valid env c ids ms -> set_basis_ids env c ids (Some ms) = Ok (assign c ids (Some ms)).
+  valid env c ids ms -> set_basis_ids env c ids (Some (map Some ms)) = Ok (assign c ids (Some ms)).
 Proof.
-  intros ((Hv & Hd & H2) & Hl & Hr). apply validate_ok in Hv as (Hg & Hc).
-  unfold set_basis_ids, assign. rewrite Hl, Nat.eqb_refl. simpl.
+  intros (Hvg & Hl & Hr). destruct (vg_parts c ids Hvg) as (Hv & Hd & H2). apply validate_ok in Hv as (Hg & Hc).
+  unfold set_basis_ids, assign. rewrite map_length, Hl, Nat.eqb_refl, all_some_map_Some. simpl.
   rewrite assign_loop_char by (apply valid_members_placeholders, Hg).
   assert (maps_in_range env c (combine ids ms) = true) as ->; [|reflexivity].
   unfold maps_in_range. apply forallb_forall. intros [g m] Hin. apply forallb_forall. intros p Hp.
@@ -852,7 +910,7 @@ Proof. unfold goodb, wfb, has_bid, is_qpd. destruct (iop x); try discriminate; r
 Lemma assign_good env c ids ms :
   valid env c ids ms -> Forall (fun x => goodb env x = true) (assign c ids (Some ms)).
 Proof.
-  intros ((Hv & Hd & H2) & Hl & Hr). apply validate_ok in Hv as (Hg & Hc).
+  intros (Hvg & Hl & Hr). destruct (vg_parts c ids Hvg) as (Hv & Hd & H2). apply validate_ok in Hv as (Hg & Hc).
   unfold assign, assign_gm. apply Forall_mapi. intros n x Hn. simpl.
   destruct (is_qpd x) eqn:Eq.
   - pose proof (covered c ids Hg Hd Hc n x Hn Eq) as Hin.
@@ -874,16 +932,25 @@ Proof.
     unfold goodb in H; apply andb_prop in H; tauto.
 Qed.
 
+(* _decompose_qpd_instructions on a circuit with the placeholder kinds of a validly grouped c *)
+Lemma finish_spec env c c1 nc ids :
+  valid_grouping c ids -> map is_qpd2 c1 = map is_qpd2 c -> forallb (wfb env) c1 = true ->
+  finish env c1 nc ids = if forallb has_bid c1 then Ok (spec env nc c1) else Refused.
+Proof.
+  intros Hv Hk Hw. unfold finish. destruct (forallb has_bid c1) eqn:E; simpl; [|reflexivity].
+  rewrite (expand_phases env c c1 nc ids Hv Hk Hw). now rewrite E.
+Qed.
+
 (* THE splice theorem *)
 Theorem decompose_splice env c nc ids ms :
   valid env c ids ms ->
-  decompose env c nc ids (Some ms) = Ok (spec env nc (assign c ids (Some ms))).
+  decompose env c nc ids (Some (map Some ms)) = Ok (spec env nc (assign c ids (Some ms))).
 Proof.
-  intros Hv. pose proof Hv as ((Hval & Hd & H2) & Hl & Hr).
+  intros Hv. pose proof Hv as (Hval & Hl & Hr).
   unfold decompose. rewrite Hval. cbn [res_bind]. rewrite (set_basis_ids_valid env c ids ms Hv). cbn [res_bind].
   destruct (Forall_goodb env _ (assign_good env c ids ms Hv)) as (Hw & Hb).
-  rewrite (expand_phases env c (assign c ids (Some ms)) nc ids); [now rewrite Hb| |exact (assign_kinds c (combine ids ms))|exact Hw].
-  repeat split; assumption.
+  rewrite (finish_spec env c (assign c ids (Some ms)) nc ids Hval (assign_kinds c (combine ids ms)) Hw).
+  now rewrite Hb.
 Qed.
 
 (* map_ids omitted *)
@@ -891,8 +958,8 @@ Theorem decompose_omitted env c nc ids :
   valid_grouping c ids -> forallb (wfb env) c = true ->
   decompose env c nc ids None = if forallb has_bid c then Ok (spec env nc c) else Refused.
 Proof.
-  intros Hv Hw. pose proof Hv as (Hval & _). unfold decompose. rewrite Hval. cbn [res_bind set_basis_ids].
-  exact (expand_phases env c c nc ids Hv eq_refl Hw).
+  intros Hv Hw. unfold decompose. rewrite Hv. cbn [res_bind set_basis_ids].
+  exact (finish_spec env c c nc ids Hv eq_refl Hw).
 Qed.
 
 (* the assignment, pointwise *)
@@ -900,7 +967,7 @@ Lemma assign_member env c ids ms g m p x :
   valid env c ids ms -> In (g, m) (combine ids ms) -> In p g -> nth_error c p = Some x ->
   nth_error (assign c ids (Some ms)) p = Some (set_bid (Z.to_nat m) x).
 Proof.
-  intros ((Hv & Hd & H2) & Hl & Hr) Hgm Hp Hx.
+  intros (Hvg & Hl & Hr) Hgm Hp Hx. destruct (vg_parts c ids Hvg) as (Hv & Hd & H2).
   unfold assign, assign_gm. rewrite nth_error_mapi, Hx. simpl.
   rewrite (chosen_unique (combine ids ms) g m p); auto. rewrite map_fst_combine by auto. exact Hd.
 Qed.
@@ -943,7 +1010,7 @@ Proof.
 Qed.
 
 Theorem no_placeholder env c nc ids ms out k :
-  valid env c ids ms -> decompose env c nc ids (Some ms) = Ok (out, k) ->
+  valid env c ids ms -> decompose env c nc ids (Some (map Some ms)) = Ok (out, k) ->
   forall y, In y out -> is_qpd y = false /\ is_marker y = false.
 Proof.
   intros Hv H y Hy. rewrite (decompose_splice env c nc ids ms Hv) in H.
@@ -1022,7 +1089,7 @@ Proof.
 Qed.
 
 Theorem others_in_order env c nc ids ms out k :
-  valid env c ids ms -> decompose env c nc ids (Some ms) = Ok (out, k) ->
+  valid env c ids ms -> decompose env c nc ids (Some (map Some ms)) = Ok (out, k) ->
   exists mask, length mask = length out /\ select mask out = filter is_other c.
 Proof.
   intros Hv H. rewrite (decompose_splice env c nc ids ms Hv) in H.
@@ -1058,9 +1125,7 @@ Qed.
 (* ====================================================================== *)
 
 Theorem refuse_invalid env c nc ids maps :
-  ids_in_range c ids ->
-  ~ (Forall (good_group c) ids /\ length (filter is_qpd c) = length (concat ids)) ->
-  decompose env c nc ids maps = Refused.
+  ids_in_range c ids -> ~ well_formed c ids -> decompose env c nc ids maps = Refused.
 Proof. intros Hr Hn. unfold decompose. now rewrite (validate_refuses c ids Hr Hn). Qed.
 
 Theorem refuse_length env c nc ids maps g :
@@ -1094,28 +1159,66 @@ Qed.
 Theorem refuse_count env c nc ids maps :
   ids_in_range c ids -> length (concat ids) <> length (filter is_qpd c) ->
   decompose env c nc ids maps = Refused.
-Proof. intros Hr Hn. apply refuse_invalid; [assumption|]. intros [_ H]. congruence. Qed.
+Proof. intros Hr Hn. apply refuse_invalid; [assumption|]. intros (_ & H & _). congruence. Qed.
 
-Theorem refuse_maps_length env c nc ids ms :
-  ids_in_range c ids -> length ms <> length ids ->
-  decompose env c nc ids (Some ms) = Refused.
+(* an instruction index mentioned twice, inside one group or across groups *)
+Theorem refuse_repeated_index env c nc ids maps :
+  ids_in_range c ids -> ~ NoDup (concat ids) -> decompose env c nc ids maps = Refused.
+Proof. intros Hr Hn. apply refuse_invalid; [assumption|]. intros (_ & _ & H & _). contradiction. Qed.
+
+(* a two-qubit placeholder grouped with another index *)
+Theorem refuse_2q_in_pair env c nc ids maps g p :
+  ids_in_range c ids -> In g ids -> In p g -> qpd2_at c p -> length g <> 1 ->
+  decompose env c nc ids maps = Refused.
+Proof.
+  intros Hr Hg Hp Hq Hl. apply refuse_invalid; [assumption|]. intros (_ & _ & _ & H). apply Hl. exact (H g Hg p Hp Hq).
+Qed.
+
+Theorem refuse_maps_length env c nc ids (mos : list (option Z)) :
+  ids_in_range c ids -> length mos <> length ids ->
+  decompose env c nc ids (Some mos) = Refused.
 Proof.
   intros Hr Hn. unfold decompose. pose proof (validate_nocrash c ids Hr) as Hc.
   destruct (validate c ids) as [[]| |]; [|reflexivity|congruence].
-  cbn [res_bind set_basis_ids]. destruct (Nat.eqb_spec (length ids) (length ms)); [congruence|reflexivity].
+  cbn [res_bind set_basis_ids]. destruct (Nat.eqb_spec (length ids) (length mos)); [congruence|reflexivity].
 Qed.
 
-Theorem refuse_map_out_of_range env c nc ids ms g m p :
-  ids_in_range c ids -> In (g, m) (combine ids ms) -> In p g -> in_range_b env c p m = false ->
-  decompose env c nc ids (Some ms) = Refused.
+Lemma all_some_In {A B} (ids : list B) (mos : list (option A)) ms g m :
+  all_some mos = Some ms -> In (g, Some m) (combine ids mos) -> In (g, m) (combine ids ms).
+Proof.
+  revert ids ms; induction mos as [|[x|] mos IH]; intros [|g0 ids] ms H Hin; simpl in *; try contradiction; try discriminate.
+  destruct (all_some mos) as [ms'|] eqn:E; [|discriminate]. inversion H; subst ms. simpl.
+  destruct Hin as [Hin|Hin]; [inversion Hin; now left|right; now apply IH].
+Qed.
+
+Lemma all_some_None {A} (mos : list (option A)) : In None mos -> all_some mos = None.
+Proof.
+  induction mos as [|[x|] mos IH]; simpl; intros H; [contradiction| |reflexivity].
+  destruct H as [H|H]; [discriminate|]. now rewrite IH.
+Qed.
+
+(* a None entry in map_ids *)
+Theorem refuse_map_none env c nc ids (mos : list (option Z)) :
+  ids_in_range c ids -> In None mos -> decompose env c nc ids (Some mos) = Refused.
+Proof.
+  intros Hr Hn. unfold decompose. pose proof (validate_nocrash c ids Hr) as Hc.
+  destruct (validate c ids) as [[]| |]; [|reflexivity|congruence].
+  cbn [res_bind set_basis_ids]. destruct (negb _); [reflexivity|]. now rewrite (all_some_None mos Hn).
+Qed.
+
+Theorem refuse_map_out_of_range env c nc ids (mos : list (option Z)) g m p :
+  ids_in_range c ids -> In (g, Some m) (combine ids mos) -> In p g -> in_range_b env c p m = false ->
+  decompose env c nc ids (Some mos) = Refused.
 Proof.
   intros Hr Hgm Hp Hf. unfold decompose. pose proof (validate_nocrash c ids Hr) as Hc.
   destruct (validate c ids) as [[]| |] eqn:Ev; [|reflexivity|congruence].
   apply validate_ok in Ev as (Hg & _).
-  cbn [res_bind set_basis_ids]. destruct (negb (Nat.eqb (length ids) (length ms))); [reflexivity|].
+  cbn [res_bind set_basis_ids]. destruct (negb (Nat.eqb (length ids) (length mos))); [reflexivity|].
+  destruct (all_some mos) as [ms|] eqn:Ea; [|reflexivity].
+  pose proof (all_some_In ids mos ms g m Ea Hgm) as Hgm'.
   rewrite assign_loop_char by (apply valid_members_placeholders, Hg).
   destruct (maps_in_range env c (combine ids ms)) eqn:E; [|reflexivity].
-  unfold maps_in_range in E. rewrite forallb_forall in E. specialize (E (g, m) Hgm). simpl in E.
+  unfold maps_in_range in E. rewrite forallb_forall in E. specialize (E (g, m) Hgm'). simpl in E.
   rewrite forallb_forall in E. specialize (E p Hp). congruence.
 Qed.
 
@@ -1123,38 +1226,14 @@ Qed.
 (* M. boolean validity check (used by the non-vacuity examples)            *)
 (* ====================================================================== *)
 
-Fixpoint nodupb (l : list nat) : bool :=
-  match l with [] => true | x :: r => negb (existsb (Nat.eqb x) r) && nodupb r end.
-
-Lemma nodupb_NoDup l : nodupb l = true -> NoDup l.
-Proof.
-  induction l as [|a l IH]; simpl; intros H; constructor; apply andb_prop in H as [H1 H2]; [|auto].
-  intros Hin. apply negb_true_iff in H1.
-  assert (existsb (Nat.eqb a) l = true) by (apply existsb_exists; exists a; split; auto using Nat.eqb_refl).
-  congruence.
-Qed.
-
-Definition qpd2_atb (c : circ) (p : nat) : bool :=
-  match nth_error c p with Some i => is_qpd2 i | None => false end.
-
 Definition groupingb (c : circ) (ids : list (list nat)) : bool :=
-  match validate c ids with Ok _ => true | _ => false end &&
-  nodupb (concat ids) &&
-  forallb (fun g => forallb (fun p => implb (qpd2_atb c p) (Nat.eqb (length g) 1)) g) ids.
+  match validate c ids with Ok _ => true | _ => false end.
 
 Definition validb (env : benv) (c : circ) (ids : list (list nat)) (ms : list Z) : bool :=
   groupingb c ids && Nat.eqb (length ms) (length ids) && maps_in_range env c (combine ids ms).
 
 Lemma groupingb_sound c ids : groupingb c ids = true -> valid_grouping c ids.
-Proof.
-  unfold groupingb. intros H. apply andb_prop in H as [H H3]. apply andb_prop in H as [H1 H2].
-  split; [|split].
-  - destruct (validate c ids) as [[]| |]; try discriminate; reflexivity.
-  - now apply nodupb_NoDup.
-  - intros g p Hg Hp (i & Hi & Hq). rewrite forallb_forall in H3. specialize (H3 g Hg).
-    rewrite forallb_forall in H3. specialize (H3 p Hp). unfold qpd2_atb in H3. rewrite Hi, Hq in H3.
-    simpl in H3. now apply Nat.eqb_eq.
-Qed.
+Proof. unfold groupingb, valid_grouping. destruct (validate c ids) as [[]| |]; try discriminate; reflexivity. Qed.
 
 Lemma validb_sound env c ids ms : validb env c ids ms = true -> valid env c ids ms.
 Proof.
@@ -1169,7 +1248,7 @@ Qed.
 (* ====================================================================== *)
 
 Theorem measure_bits env c nc ids ms out k :
-  valid env c ids ms -> decompose env c nc ids (Some ms) = Ok (out, k) ->
+  valid env c ids ms -> decompose env c nc ids (Some (map Some ms)) = Ok (out, k) ->
   let s := flat_map (splice env) (assign c ids (Some ms)) in
   k = Nat.max 1 (count_markers s) /\
   length out = length s /\
@@ -1207,3 +1286,74 @@ Proof.
   rewrite (proj1 (setter_spec env b (Z.of_nat m))). unfold wfb; simpl. rewrite Nat.ltb_lt.
   unfold benv, basis in *. lia.
 Qed.
+
+(* ====================================================================== *)
+(* P. totality: every request with indices inside the circuit is decided   *)
+(* ====================================================================== *)
+
+Lemma chosen_Some_in {M} (gm : list (list nat * M)) p m :
+  chosen gm p = Some m -> exists g, In (g, m) gm /\ In p g.
+Proof.
+  induction gm as [|[g0 m0] r IH]; simpl; [discriminate|].
+  destruct (chosen r p) as [m1|] eqn:E; intros H.
+  - inversion H; subst m1. destruct (IH eq_refl) as (g & Hin & Hp). exists g; split; [now right|assumption].
+  - destruct (existsb (Nat.eqb p) g0) eqn:Ex; [|discriminate]. inversion H; subst m0.
+    apply existsb_exists in Ex as (q & Hq & Eq). apply Nat.eqb_eq in Eq; subst q.
+    exists g0; split; [now left|assumption].
+Qed.
+
+Lemma assign_wfb env c gm :
+  forallb (wfb env) c = true -> maps_in_range env c gm = true -> forallb (wfb env) (assign_gm c gm) = true.
+Proof.
+  intros Hw Hm. apply forallb_forall. intros x Hx. apply In_nth_error in Hx as (n & Hn).
+  unfold assign_gm in Hn. rewrite nth_error_mapi in Hn. simpl in Hn.
+  destruct (nth_error c n) as [y|] eqn:Ey; [|discriminate]. simpl in Hn. inversion Hn; subst x; clear Hn.
+  rewrite forallb_forall in Hw. pose proof (Hw y (nth_error_In _ _ Ey)) as Hy.
+  destruct (chosen gm n) as [m|] eqn:Ec; [|exact Hy].
+  destruct (chosen_Some_in gm n m Ec) as (g & Hgm & Hng).
+  unfold maps_in_range in Hm. rewrite forallb_forall in Hm. specialize (Hm (g, m) Hgm). simpl in Hm.
+  rewrite forallb_forall in Hm. specialize (Hm n Hng). unfold in_range_b in Hm. rewrite Ey in Hm.
+  destruct (basis_of y) as [b|] eqn:Eb; [|discriminate].
+  apply andb_prop in Hm as [H1 H2]. apply Z.leb_le in H1. apply Z.ltb_lt in H2.
+  assert (Hg : goodb env (set_bid (Z.to_nat m) y) = true)
+    by (apply (goodb_set_bid env (Z.to_nat m) y b); [exact Eb|unfold benv, basis in *; lia]).
+  unfold goodb in Hg. now apply andb_prop in Hg as [Hg _].
+Qed.
+
+(* the circuit whose placeholders carry the basis_ids the decomposition uses *)
+Definition assigned (c : circ) (ids : list (list nat)) (maps : option (list (option Z))) : circ :=
+  match maps with
+  | None => c
+  | Some mos => match all_some mos with Some ms => assign_gm c (combine ids ms) | None => c end
+  end.
+
+(* the decision: grouping accepted, map choice complete and in range, every placeholder has a basis_id *)
+Definition accepts (env : benv) (c : circ) (ids : list (list nat)) (maps : option (list (option Z))) : bool :=
+  groupingb c ids &&
+  match maps with
+  | None => true
+  | Some mos => Nat.eqb (length ids) (length mos) &&
+                match all_some mos with Some ms => maps_in_range env c (combine ids ms) | None => false end
+  end &&
+  forallb has_bid (assigned c ids maps).
+
+Theorem decompose_decided env c nc ids maps :
+  ids_in_range c ids -> forallb (wfb env) c = true ->
+  decompose env c nc ids maps =
+  if accepts env c ids maps then Ok (spec env nc (assigned c ids maps)) else Refused.
+Proof.
+  intros Hr Hw. unfold decompose, accepts, groupingb. pose proof (validate_nocrash c ids Hr) as Hc.
+  destruct (validate c ids) as [[]| |] eqn:Ev; [|reflexivity|congruence].
+  cbn [res_bind andb]. destruct maps as [mos|]; unfold set_basis_ids, assigned.
+  - destruct (Nat.eqb (length ids) (length mos)); cbn [negb andb]; [|reflexivity].
+    destruct (all_some mos) as [ms|] eqn:Ea; [|reflexivity].
+    pose proof (validate_ok c ids Ev) as (Hg & _).
+    rewrite assign_loop_char by (apply valid_members_placeholders, Hg).
+    destruct (maps_in_range env c (combine ids ms)) eqn:Em; cbn [res_bind andb]; [|reflexivity].
+    exact (finish_spec env c (assign_gm c (combine ids ms)) nc ids Ev (assign_kinds c _) (assign_wfb env c _ Hw Em)).
+  - cbn [res_bind andb]. exact (finish_spec env c c nc ids Ev eq_refl Hw).
+Qed.
+
+Theorem decompose_never_crashes env c nc ids maps :
+  ids_in_range c ids -> forallb (wfb env) c = true -> decompose env c nc ids maps <> Crashed.
+Proof. intros Hr Hw. rewrite (decompose_decided env c nc ids maps Hr Hw). destruct (accepts _ _ _ _); discriminate. Qed.
